@@ -5,3 +5,5 @@ import MpsProps.Src.SrcCmpPresign
 import MpsProps.Src.SrcLPkgEcdsa
 import MpsProps.Src.SrcLPkgZkNth
 import MpsProps.Src.SrcLPkgZkLog
+import MpsProps.Src.SrcLPkgParty
+import MpsProps.Src.SrcLPkgMathPolynomial
